@@ -109,6 +109,7 @@ package mcap
     requires wfLexer(l)
     touches l
     ensures wfLexer(l)
+    ensures [chunk-buffer-replaced-only-when-too-small] {C20} err == nil && base(l.uncompressedChunk) != old(base(l.uncompressedChunk)) ==> len(l.uncompressedChunk) > old(len(l.uncompressedChunk))
 @*/
 
 /*@ func (*Lexer).Next
@@ -396,6 +397,13 @@ package mcap
     ensures [chunk-list-sorted] {C03} chunksSorted(it)
     loop 1 invariant [chunk-list-sorted] {C03} chunksSorted(it) && it.order == old(it.order)
     loop 2 invariant [chunk-list-sorted] {C03} chunksSorted(it)
+    ensures [slot-appended-only-when-none-is-free] {C20} len(it.chunkSlots) == old(len(it.chunkSlots))
+        || (len(it.chunkSlots) == old(len(it.chunkSlots)) + 1 && forall(s, 0, old(len(it.chunkSlots)), old(it.chunkSlots[s].unreadMessages) != 0))
+    ensures [read-buffer-grows-only-when-too-small] {C20} base(it.recordBuf) != old(base(it.recordBuf)) ==> cap(it.recordBuf) > old(cap(it.recordBuf))
+    loop 1 invariant [earlier-slots-busy] {C20} chunkSlotIndex == -1 && len(it.chunkSlots) == old(len(it.chunkSlots)) && forall(s, 0, iter, it.chunkSlots[s].unreadMessages != 0)
+        && forall(s, 0, len(it.chunkSlots), it.chunkSlots[s].unreadMessages == old(it.chunkSlots[s].unreadMessages))
+    loop 2 invariant [slot-count-is-entries-of-this-load] {C20} 0 <= chunkSlotIndex && chunkSlotIndex < len(it.chunkSlots) && it.chunkSlots[chunkSlotIndex].unreadMessages == len(it.messageIndexes) - startIdx
+        && forall(k, startIdx, len(it.messageIndexes), it.messageIndexes[k].chunkSlotIndex == chunkSlotIndex)
 @*/
 
 /*@ func (*indexedMessageIterator).NextInto
@@ -417,6 +425,9 @@ package mcap
     call PopulateFrom#1 assert [no-unloaded-chunk-ends-after-the-yield] {C03} it.order == ReverseLogTimeOrder ==> forall(c, it.curChunkIndex, len(it.chunkIndexes), it.chunkIndexes[c].MessageEndTime <= messageIndex.timestamp)
     call PopulateFrom#1 assert [yield-is-queue-head] {C03} messageIndex.timestamp == it.messageIndexes[it.curMessageIndex].timestamp && messageIndex.offset == it.messageIndexes[it.curMessageIndex].offset && messageIndex.chunkSlotIndex == it.messageIndexes[it.curMessageIndex].chunkSlotIndex
     call Get#1 assert [cursor-advances-by-one-per-yield] {C03} it.curMessageIndex == athead(it.curMessageIndex) + 1 && len(it.messageIndexes) == athead(len(it.messageIndexes))
+    call Get#1 assert [yield-releases-exactly-its-slot] {C20} it.chunkSlots[messageIndex.chunkSlotIndex].unreadMessages == wrap64(athead(it.chunkSlots[it.messageIndexes[it.curMessageIndex].chunkSlotIndex].unreadMessages) - 1)
+        && len(it.chunkSlots) == athead(len(it.chunkSlots))
+        && forall(s, 0, len(it.chunkSlots), s != it.messageIndexes[it.curMessageIndex-1].chunkSlotIndex ==> it.chunkSlots[s].unreadMessages == athead(it.chunkSlots[s].unreadMessages))
 @*/
 
 /*@ func (*indexedMessageIterator).Next
@@ -1001,6 +1012,7 @@ package mcap
     requires [crc-inv] {C06} crcInv(w)
     ensures [crc-inv] {C06} crcInv(w)
     ensures [file-crc-range-kept] {C06} fileCrcKept(w, old(w.w.crc.crc), old(crcFrom(w)))
+    call ensureSized#1 assert [scratch-buffer-independent-of-data-size] {C20} arg0 == 41 + len(a.Name) + len(a.MediaType)
 @*/
 
 /*@ func (*Writer).writeSummarySection
